@@ -5,7 +5,9 @@ import DoitModel.Proofs.C08DynExec
 /-! # C08 — parallel runs are outcome-equivalent to the serial run
 
 Property theorems only.  Models: `Model/Run.lean` (M1, transition systems of the three runners), `Model/RunData.lean`
-(denotation of a complete run; data path worker → main).  Helper lemmas: `Proofs/C08*.lean`, `Proofs/Run*.lean`. -/
+(denotation of a complete run, static `denF` and with dynamic calc_dep edges `denTab`; data path worker → main).
+Helper lemmas: `Proofs/C08Conf*.lean` (graphs without calc_dep), `Proofs/C08Dyn*.lean` (any graph), `Proofs/Run*.lean`.
+The confluence half is proved in full: `C08_confluence` (no `NoCalc`, no `Acyclic`); `C08_confluence_partial` is kept. -/
 namespace DoitModel.C08
 open DoitModel.Run
 
